@@ -21,6 +21,8 @@ func (s Step) String() string {
 		return fmt.Sprintf("%s(%s=%s)", s.Op, s.Key, s.Val)
 	case "del":
 		return "del(" + s.Key + ")"
+	case "edit":
+		return fmt.Sprintf("Header()[%s][0]=%s", s.Key, s.Val)
 	case "status":
 		return fmt.Sprintf("WriteHeader(%d)", s.Code)
 	case "panic":
@@ -50,6 +52,10 @@ func (p *Prog) Exec(w http.ResponseWriter) {
 			w.Header().Add(s.Key, s.Val)
 		case "del":
 			w.Header().Del(s.Key)
+		case "edit": // in place: the value slice stays the same object
+			if vs := w.Header()[http.CanonicalHeaderKey(s.Key)]; len(vs) > 0 {
+				vs[0] = s.Val
+			}
 		case "status":
 			w.WriteHeader(s.Code)
 		case "write":
